@@ -48,6 +48,36 @@ pub fn run(op: &str, case: &Value) -> Result<Value> {
                 Err(e) => errv(e),
             }
         }
+        "eval_dependencies_via_instance" => {
+            // eval_dependencies is private: reach it through Instance::evaluate with an empty objective
+            let mut inst = v1::Instance::default();
+            inst.sense = 1;
+            for (k, v) in case["deps"].as_object().ok_or_else(|| anyhow!("deps"))? {
+                inst.decision_variable_dependency.insert(k.parse()?, msg(v)?);
+            }
+            let st: v1::State = msg(&case["state"])?;
+            match inst.evaluate(&st) {
+                Ok((sol, used)) => json!({"ok": {"solution": enc(&sol), "used": ids(used)}}),
+                Err(e) => errv(e),
+            }
+        }
+        "substitute_then_eval" => {
+            let mut inst: v1::Instance = msg(&case["instance"])?;
+            for step in case["steps"].as_array().ok_or_else(|| anyhow!("steps"))? {
+                let mut rep = std::collections::HashMap::new();
+                for (k, v) in step.as_object().ok_or_else(|| anyhow!("step"))? {
+                    rep.insert(k.parse::<u64>()?, msg::<Function>(v)?);
+                }
+                if let Err(e) = inst.substitute(rep) {
+                    return Ok(errv(e));
+                }
+            }
+            let st: v1::State = msg(&case["state"])?;
+            match inst.evaluate(&st) {
+                Ok((sol, used)) => json!({"ok": {"solution": enc(&sol), "used": ids(used), "instance": enc(&inst)}}),
+                Err(e) => errv(e),
+            }
+        }
         _ => bail!("unknown op {op}"),
     })
 }
